@@ -248,18 +248,18 @@ def r2(ctx) -> None:
                lib.stmt_of(c), "the items are filled from the parameters handed in for this evaluation")
 
 
-def r3(ctx) -> None:
+def r3(ctx, rule: str = "C10-R3", scope: tuple = SCOPE, floors: bool = True) -> None:
     repo = ctx.repo
     ef = _effects(repo)
     mp = ef.mutated_params()
     gd = ctx.fn(DAT, "DataProvider.get_from_dataset")
-    ctx.ob("C10-R3", "DataProvider.get_from_dataset/returns-copy", ef.returns(gd) == "fresh", gd, gd.node,
+    ctx.ob(rule, "DataProvider.get_from_dataset/returns-copy", ef.returns(gd) == "fresh", gd, gd.node,
            "get_from_dataset returns a copy of the caller's array (the provider multiplies it by the weight in place)",
            [f"return origin: {ef.returns(gd)}"], construct="return data  # data = dataset[name].data.copy()")
     n_sites = 0
     n_calls = 0
     for fi in repo.functions.values():
-        if not in_scope(fi):
+        if not fi.rel.startswith(scope):
             continue
         ctx.touch(fi)
         params = fi.params()
@@ -278,7 +278,7 @@ def r3(ctx) -> None:
                     continue
                 n_sites += 1
                 acc = ACCEPTED_SITES.get((fi.short, norm(mu.node)))
-                ctx.ob("C10-R3", f"{fi.short}/foreign-attribute-store", acc is not None, fi, mu.node,
+                ctx.ob(rule, f"{fi.short}/foreign-attribute-store", acc is not None, fi, mu.node,
                        f"attribute of an object that is not owned is assigned (origin: {o})" + (f" - accepted: {acc}" if acc else ""))
                 continue
             n_sites += 1
@@ -296,12 +296,12 @@ def r3(ctx) -> None:
                                     if isinstance(s2, ast.Assign):
                                         vals.append(ef.origin(flm, s2.value, s2))
                         ok = bool(vals) and all(v in ("fresh", "scalar") for v in vals)
-                        ctx.ob("C10-R3", f"{fi.short}/in-place-on-attribute:{attr}", ok, fi, mu.node,
+                        ctx.ob(rule, f"{fi.short}/in-place-on-attribute:{attr}", ok, fi, mu.node,
                                f"`self.{attr}` is modified in place; the object stored there must be a private copy "
                                "(a dataclass field holds whatever the constructor was given)", [f"stored origins: {vals}"])
                     continue
                 ok = OUT_PARAMS.get(fi.name, ("",))[0] == p
-                ctx.ob("C10-R3", f"{fi.short}/mutates-parameter:{p}", ok, fi, mu.node,
+                ctx.ob(rule, f"{fi.short}/mutates-parameter:{p}", ok, fi, mu.node,
                        f"`{norm(mu.target)}` is the caller's object and is modified in place ({how}); only declared "
                        "out-parameter functions may do that" + (f" - {OUT_PARAMS[fi.name][1]}" if ok else ""))
             elif o.startswith("state:"):
@@ -324,12 +324,12 @@ def r3(ctx) -> None:
                                 if isinstance(t, ast.Subscript) and lib.chain_text(t.value) == attr and isinstance(s, ast.Assign):
                                     vals.append((m, s, ef.origin(flm, s.value, s)))
                 bad = [(m, s, oo) for m, s, oo in vals if oo not in ("fresh", "scalar")]
-                ctx.ob("C10-R3", f"{fi.short}/in-place-on-state:{attr}", bool(vals) and not bad, fi, mu.node,
+                ctx.ob(rule, f"{fi.short}/in-place-on-state:{attr}", bool(vals) and not bad, fi, mu.node,
                        f"`{norm(mu.target)}[...]` is modified in place; every value stored in {attr} must be a private copy",
                        [f"{m.short}: `{lib.short(s, 70)}` origin {oo}" for m, s, oo in vals])
             else:
                 acc = ACCEPTED_SITES.get((fi.short, norm(mu.node)))
-                ctx.ob("C10-R3", f"{fi.short}/mutates-unowned", acc is not None, fi, mu.node,
+                ctx.ob(rule, f"{fi.short}/mutates-unowned", acc is not None, fi, mu.node,
                        f"`{norm(mu.target)}` is modified in place ({how}) but its origin is {o}")
         # call sites of functions that mutate a parameter
         for mu in ef.call_mutations(fi):
@@ -349,7 +349,7 @@ def r3(ctx) -> None:
                 ok = False
             else:
                 ok = (fi.short, cname, argt) in ACCEPTED_ARGS
-            ctx.ob("C10-R3", f"{fi.short}/passes-to-mutator:{cname}({pname})", ok, fi, lib.stmt_of(mu.node),
+            ctx.ob(rule, f"{fi.short}/passes-to-mutator:{cname}({pname})", ok, fi, lib.stmt_of(mu.node),
                    f"`{cname}` modifies its argument `{pname}` in place; here it receives `{argt}` with origin {o}; "
                    "it must be fresh, or a forwarded out-parameter"
                    + (f" - accepted: {ACCEPTED_ARGS[(fi.short, cname, argt)]}" if (fi.short, cname, argt) in ACCEPTED_ARGS else ""))
@@ -361,10 +361,13 @@ def r3(ctx) -> None:
                     o = "unknown"
                     if pos is not None and pos < len(c.args):
                         o = ef.origin(lib.flow(fi, repo), c.args[pos], lib.stmt_of(c))
-                    ctx.ob("C10-R3", f"{fi.short}/lapack-overwrite:{fname}", o == "fresh", fi, lib.stmt_of(c),
+                    ctx.ob(rule, f"{fi.short}/lapack-overwrite:{fname}", o == "fresh", fi, lib.stmt_of(c),
                            f"`{k.arg}` lets LAPACK overwrite its input array in place; that array has origin {o}")
-    ctx.sites("C10-R3", "in-place mutation sites examined", n_sites, 40)
-    ctx.sites("C10-R3", "calls of parameter mutating functions", n_calls, 15)
+    if floors:
+        ctx.sites(rule, "in-place mutation sites examined", n_sites, 40)
+        ctx.sites(rule, "calls of parameter mutating functions", n_calls, 15)
+    else:
+        ctx.sites(rule, "in-place mutation sites examined", n_sites, 10)
     ctx.call_sites += n_calls
     _ = mp
 
